@@ -41,7 +41,15 @@ var (
 	sharedMeter   atomic.Uint64
 	sharedCap     atomic.Uint64
 	sharedTripped atomic.Bool
+	// World C: every preemptEvery-th instrumented statement the running handler
+	// goroutine gives up the processor (runtime.Gosched), so that handlers
+	// served "at the same time" on one P really interleave at statement level
+	preemptEvery atomic.Uint64
+	Preemptions  atomic.Uint64
 )
+
+// SetPreempt arms (n > 0) or disarms (0) forced yields in shared mode.
+func SetPreempt(n uint64) { preemptEvery.Store(n) }
 
 // SetShared switches the meter to atomic counters (World C).
 func SetShared(on bool) { shared = on }
@@ -99,6 +107,10 @@ func Yield(site int) {
 		if c := sharedCap.Load(); c != 0 && m > c && (m-c)%4096 == 1 {
 			sharedTripped.Store(true)
 			panic(WorkCapTrip{m})
+		}
+		if pe := preemptEvery.Load(); pe != 0 && m%pe == 0 {
+			Preemptions.Add(1)
+			runtime.Gosched()
 		}
 		return
 	}
